@@ -74,6 +74,7 @@ def st_operator(draw):
     return {"img": img, "nc": nc, "coord": coord, "weights": weights,
             "cbs": draw(st.sampled_from([None] + list(range(1, nc + 1)))),
             "dtype": draw(st.sampled_from(["complex128", "complex128", "complex64"])),
+            "layout": draw(st.sampled_from(A.LAYOUTS)),
             "mseed": draw(A.seeds), "xseed": draw(A.seeds)}
 
 
@@ -84,10 +85,14 @@ def check_operator(case):
     r = R()
     img, nc, dt = case["img"], case["nc"], case["dtype"]
     tol = 2e-4 if dt == "complex64" else 1e-9
-    mps = A.arr({"k": "g", "shape": [nc] + img, "dtype": dt, "seed": case["mseed"]})
-    coord = None if case["coord"] is None else A.arr(case["coord"])
-    w = None if case["weights"] is None else A.arr(case["weights"])
-    x = A.arr({"k": "g", "shape": img, "dtype": dt, "seed": case["xseed"]})
+    # the caller's arrays in the generated memory layout (C / Fortran / strided / reversed views of the same values)
+    lay = case.get("layout", "c")
+    mps = A.relayout(A.arr({"k": "g", "shape": [nc] + img, "dtype": dt, "seed": case["mseed"]}), lay)
+    coord = None if case["coord"] is None else A.relayout(A.arr(case["coord"]), lay)
+    w = None if case["weights"] is None else A.relayout(A.arr(case["weights"]), lay)
+    x = A.relayout(A.arr({"k": "g", "shape": img, "dtype": dt, "seed": case["xseed"]}), lay)
+    if lay != "c":
+        r.label("layout:" + lay)
     npix = A.prod(img)
     label = "cart" if coord is None else "noncart"
     r.label(label, "weights" if w is not None else "no-weights", "batched" if case["cbs"] not in (None, nc) else "unbatched",
